@@ -187,7 +187,13 @@ func (d *Driver) workerCmd(ctx context.Context, gomaxprocs int, initSeed uint64)
 // runRequests executes reqs in one fresh worker process; responses come back in order.
 // A worker that dies is reported through died=true with its stderr.
 func (d *Driver) runRequests(reqs []*Request, gomaxprocs int) (resps []*Response, died bool, stderr string) {
-	ctx, cancel := context.WithTimeout(context.Background(), 10*time.Minute)
+	// wall-clock watchdog of the harness, generous: hangs of the code under test are found by step budgets;
+	// this only ends workers that got stuck for reasons of the harness or the machine (exit status 2)
+	wd := 45 * time.Minute
+	if d.Tier == "thorough" {
+		wd = 3 * time.Hour
+	}
+	ctx, cancel := context.WithTimeout(context.Background(), wd)
 	defer cancel()
 	// the order of map iteration during package initialisation is part of the scenario: a function of its seed
 	var initSeed uint64
@@ -232,7 +238,7 @@ func (d *Driver) runRequests(reqs []*Request, gomaxprocs int) (resps []*Response
 	if ctx.Err() != nil {
 		// the wall-clock watchdog of the harness fired (hangs of the code under test are found by step
 		// budgets long before): harness trouble, never a verdict
-		return resps, true, watchdogMark + " worker killed after 10 minutes of wall-clock time\n" + tail(errb.String(), 2000)
+		return resps, true, watchdogMark + " worker killed by the wall-clock watchdog\n" + tail(errb.String(), 2000)
 	}
 	if werr != nil || (len(resps) < len(reqs) && (len(resps) == 0 || !resps[len(resps)-1].Stop)) {
 		return resps, true, tail(errb.String(), 6000)
